@@ -31,7 +31,7 @@ LOSS_KINDS = ['reset-mid-batch', 'close-mid-batch', 'reset-idle', 'close-idle', 
 
 
 def counts(tier: str):
-    return (400, 75.0) if tier == 'quick' else (20000, 900.0)
+    return (800, 75.0) if tier == 'quick' else (20000, 900.0)
 
 
 def generate(rng, tier: str, index: int) -> dict:
